@@ -217,7 +217,9 @@ def str2num(x, signed=True, n_word=None, n_frac=None, base=10, return_sizes=Fals
         n_frac = _n_frac_max if n_frac is None else n_frac
 
     elif isinstance(x, str):
-        x = x.replace('h', 'x')     # for hex numbers: h -> x
+        x = x.lower().replace('h', 'x')     # any case; for hex numbers: h -> x
+        if x[:1] in ('x', 'b'):
+            x = '0' + x     # prefixes without the leading zero (all the prefixes which can be selected for bin() and hex() are understood)
 
         if base == 2 or 'b' in x[:2]:
             # binary
